@@ -9,13 +9,13 @@ import time
 from vlib import Check, Undecided, read_ndjson, write_ndjson, main, SEED
 
 LISTS = ["ridx", "rl1", "rl2", "sidx", "ss", "hp"]
-FAULTS = ["ok", "refused", "timeout", "status", "empty", "oversize", "trunc", "inv", "invown"]
+FAULTS = ["ok", "refused", "timeout", "status", "empty", "oversize", "trunc", "cancel", "inv", "invown"]
 PKG = "internal/filter/filterstorage"
 FILES = ["c13_test.go", "c13crash_test.go"]
 
 # what the endpoint (or the client's error) must have recorded for a fault to count as produced for real
 REAL_PREFIX = {"ok": "full", "inv": "full", "invown": "full", "refused": "refused", "timeout": "timeout:gone",
-               "status": "status:", "empty": "empty", "oversize": "oversize:", "trunc": "trunc:"}
+               "status": "status:", "empty": "empty", "oversize": "oversize:", "trunc": "trunc:", "cancel": "cancel:gone"}
 
 SANITY = [  # cfg, defect, invariant that must be reported
     ("FilterRefresh_sanity.cfg", "swap before validating", "FaultyKeepsPrevious"),
@@ -31,7 +31,7 @@ SANITY = [  # cfg, defect, invariant that must be reported
 
 
 def faults_of(l):
-    return FAULTS if l == "ridx" else FAULTS[:8] if l == "sidx" else FAULTS[:7]
+    return FAULTS if l == "ridx" else FAULTS[:9] if l == "sidx" else FAULTS[:8]
 
 
 def behaviours_from_tlc(behs, rng):
@@ -174,13 +174,13 @@ def run(c: Check):
     rng = random.Random(SEED)
     # 1. design check
     c.tlc_mc("FilterRefresh", "FilterRefresh_mc.cfg", coverage=th,
-             name="index + 2 rule lists + service index, 9 faults, 2 rounds, crash anywhere + restart")
-    c.tlc_mc("FilterRefresh", "FilterRefresh_mc_all.cfg", name="all 6 lists, 6 fault classes, 1 round, crash anywhere + restart")
+             name="index + 2 rule lists + service index, 10 faults, 2 rounds, crash anywhere + restart")
+    c.tlc_mc("FilterRefresh", "FilterRefresh_mc_all.cfg", name="all 6 lists, 10 faults, 1 round, crash anywhere + restart")
     for cfg, what, inv in (SANITY if th else SANITY[:3]):
         c.tlc_mc("FilterRefresh", cfg, expect_violation=inv, name="sanity: " + what, count=False)
     if th:
         c.tlc_mc("FilterRefresh", "FilterRefresh_mc_big.cfg", timeout=2400,
-                 name="all 6 lists, 9 faults, 2 rounds, crash anywhere + restart")
+                 name="all 6 lists, 10 faults, 2 rounds, crash anywhere + restart")
     # 2. behaviours from the spec
     behs = c.tlc_sim("FilterRefresh", "FilterRefresh_sim.cfg", num=250 if th else 25, depth=70)
     steps = behaviours_from_tlc(behs, rng)
